@@ -29,6 +29,29 @@ def run(prog, R):
     # compiler-inserted pointer checks on references produced by safe code cannot fail
     n = inventory.classify(prog, R, "C03.1-inventory", fns, rv, skip=lambda s: False, auto=lambda s: "PointerDereference" in s["descr"])
     R.floor("panic-capable sites in the analysis cone", n, 150)
+    # ---- C03.5 assignment targets: the analyser handles an ASSIGNMENT_STMT whose first child is an IDENTIFIER
+    # (AssignmentStmt::identifier) or an INDEXED_IDENTIFIER (indexed_identifier().unwrap()).  The parser must complete
+    # ASSIGNMENT_STMT only when the left operand has one of these kinds.
+    eb = prog.body("oq3_parser::grammar::expressions::expr_bp")
+    if eb:
+        from sym import SymExec, show
+        SKD = {d: n for n, d in prog.enum_variants("oq3_parser::syntax_kind::syntax_kind_enum::SyntaxKind")}
+        tg = [bi for bi, t in eb.calls() if (eb.callee_of(t) or "").endswith("Marker::complete") and {og[2] for og in origins(prog, eb, t["args"][2], max_depth=3) if og[0] == "agg"} == {"ASSIGNMENT_STMT"}]
+        kinds, unguarded, npth = set(), 0, 0
+        for p_ in SymExec(prog, eb, max_visits=1, max_paths=20000).paths():
+            if not any(x in p_.trace for x in tg):
+                continue
+            npth += 1
+            ks = [c[2] for c in p_.conds if c[0] == "switch" and show(c[1]).startswith("discr(kind(")]
+            if not ks:
+                unguarded += 1
+            for c in ks:
+                kinds |= {SKD.get(c[1], c[1])} if c[0] == "eq" else {"not(" + ",".join(str(SKD.get(v, v)) for v in c[1]) + ")"}
+        ok = bool(tg) and npth >= 1 and not unguarded and kinds <= {"IDENTIFIER", "INDEXED_IDENTIFIER"}
+        R.ob("C03.5-assignment-target-kinds", "ASSIGNMENT_STMT is completed only for an IDENTIFIER / INDEXED_IDENTIFIER left operand", ok, eb.blocks[tg[0]].term["at"] if tg else eb.at,
+             f"{npth} paths complete ASSIGNMENT_STMT, left operand kinds {sorted(kinds)}" + ("; some path has no test of the left operand's kind" if unguarded else ""))
+    else:
+        R.ob("ANCHOR", "expr_bp", False)
     # ---- C03.2 scope balance
     C07.scope_balance(prog, R, "C03.2-scope-balance")
     # ---- C03.3 termination shape: loops iterator-driven
